@@ -34,7 +34,8 @@ func World(t *T, s *model.Schema, d *model.Doc, opName string, vars map[string]*
 		w.NullRate = rapid.SampledFrom([]int{3, 6, 11}).Draw(t, "nullRate")
 	}
 	w.MaxList = 1 + uniform(t, 4, "maxList")
-	w.TypedLeaves = chance(t, 35, "typedLeaves") // 1..4, unbiased: lists of several elements are where runtime types mix
+	w.TypedLeaves = chance(t, 35, "typedLeaves")
+	w.TypedLists = chance(t, 35, "typedLists") // 1..4, unbiased: lists of several elements are where runtime types mix
 	regime := "propagate"
 	if o.NoPropagation || (!o.NoThunks && chance(t, 50, "thunkRegime")) {
 		regime = "thunks"
